@@ -15,6 +15,7 @@ import (
 	"github.com/LindsayBradford/crem/internal/pkg/dataset/csv"
 	"github.com/LindsayBradford/crem/internal/pkg/model"
 	"github.com/LindsayBradford/crem/internal/pkg/model/action"
+	cmodelarchive "github.com/LindsayBradford/crem/internal/pkg/model/archive"
 	"github.com/LindsayBradford/crem/internal/pkg/model/models/catchment"
 	"github.com/LindsayBradford/crem/internal/pkg/model/models/catchment/actions"
 	"github.com/LindsayBradford/crem/internal/pkg/model/models/catchment/variables/dissolvednitrogen"
@@ -108,6 +109,8 @@ type CM struct {
 	limVar int // index into varNames of the limited variable, -1 = none
 	limit  float64
 	pus    []planningunit.Id
+	sib    model.Model // a clone of the model taken right after loading (limited models only): a sibling run
+	sibTick int
 }
 
 // loadCM loads a real model of the dataset; `extra` (optional) are further model parameters (the scenario constants the
@@ -138,6 +141,13 @@ func loadCM(dsPath string, limVar int, limit float64, extra ...parameters.Map) (
 	m.Initialise(model.AsIs)
 	cm = &CM{m: m, dsPath: dsPath, params: params, limVar: limVar, limit: limit}
 	cm.installRand()
+	if limVar >= 0 && len(m.ManagementActions()) > 0 {
+		// as scenario.Runner prepares a run: clone, then Initialise() the clone (a DeepClone is a struct copy that still
+		// shares actions and variables with its original until it has been initialised)
+		if p := protect(func() { cm.sib = m.DeepClone(); cm.sib.Initialise(model.Random) }); p != "" {
+			cm.sib = nil
+		}
+	}
 	for _, p := range m.PlanningUnits() {
 		cm.pus = append(cm.pus, p)
 	}
@@ -225,6 +235,7 @@ type Snap struct {
 	units  map[planningunit.Id][6]float64
 	ctx    map[planningunit.Id][3][]float64
 	enc    string
+	comp   string // ModelCompressor's encoding of the model ("" for a model without actions)
 }
 
 func (cm *CM) snap() *Snap {
@@ -241,6 +252,13 @@ func (cm *CM) snap() *Snap {
 		s.ctx[p] = [3][]float64{cm.ctxOf(0, p), cm.ctxOf(1, p), cm.ctxOf(2, p)}
 	}
 	s.enc = bitsStr(s.flags)
+	// the SOLUTION ENCODING as the explorers, the saver and the engine obtain it (ModelCompressor), read in every state the
+	// walk looks at — while a proposal is pending too
+	if n := len(s.flags); n > 0 {
+		if p := protect(func() { s.comp = (&cmodelarchive.ModelCompressor{}).Compress(cm.m).Encoding() }); p != "" {
+			s.comp = "panic:" + p
+		}
+	}
 	return s
 }
 
@@ -359,6 +377,18 @@ func parseLocalisedNumber(t string) (float64, bool) {
 
 func (cm *CM) verdict() Verdict {
 	ok, errs := cm.m.ChangeIsValid()
+	// a sibling run (a clone of this model, as every run of a scenario is) has a proposal of its own judged between this
+	// model's verdict and the reading of its reason: each model's verdict and reason are its own
+	if cm.sib != nil {
+		cm.sibTick++
+		if cm.sibTick%2 == 0 {
+			protect(func() {
+				cm.sib.TryRandomChange()
+				cm.sib.ChangeIsValid()
+				cm.sib.RevertChange()
+			})
+		}
+	}
 	if ok {
 		return Verdict{valid: true, quoted: math.NaN()}
 	}
